@@ -30,6 +30,8 @@ CapsOf(p) == CASE p = "p1" -> {<<"f", "a">>}
                [] p = "p10" -> {<<"f", "a">>}
                [] p = "bad" -> {<<"f", "zzz">>}
                [] p = "bad2" -> {<<"g", "#nope">>}
+               [] p = "bad3" -> {}
+               [] p = "q2" -> {}
 AllCapPairs == UNION {CapsOf(p) : p \in Probes}
 
 MInit == [cur |-> None, tok |-> [p \in Probes |-> None],
